@@ -24,6 +24,7 @@ import io
 import os
 import re
 import signal
+import sys
 import time
 import zlib
 
@@ -390,6 +391,102 @@ def put_special(a):
             flat[i] = SPECIALS[i]
 
 
+TRACE_BAD = {}          # driver -> alias facts observed in the real execution that the extracted skeleton does not allow
+TRACE_STATS = [0, 0]    # traced calls, alias facts observed
+SKEL_ALIAS = {}         # driver -> {local name: set of parameter names it may ever alias according to the skeleton (flow-insensitive)}
+
+
+class AliasTracer:
+    """sys.settrace hook: at every line / return event of a frame that runs esutil code, every LOCAL that is an ndarray is tested
+    for shared memory with every (non-exempt) argument of the driver call; the facts (local name, argument name) are collected.
+    They are what the may-alias part of the extracted skeleton must over-approximate (check_alias_trace)."""
+    def __init__(self, params):
+        self.params = params
+        self.seen = set()
+        self.root = os.path.join(os.environ.get("VERIF_IMPL", ""), "esutil") if os.environ.get("VERIF_IMPL") else None
+
+    def glob(self, frame, event, arg):
+        fn = frame.f_code.co_filename
+        if fn.endswith(("/recfile/records.py", "/htm/htmc.py")):
+            return None               # SWIG shadow classes: their frames belong to the C entry points (summarised by the C table)
+        if fn.startswith("<c15 driver") or "/esutil/" in fn and "/tests/" not in fn:
+            return self.local
+        return None
+
+    def local(self, frame, event, arg):
+        import numpy as np
+        if event in ("line", "return"):
+            for name, val in list(frame.f_locals.items()):
+                if isinstance(val, np.ndarray) and not val.dtype.hasobject:
+                    for p, a in self.params.items():
+                        if (name, p) not in self.seen:
+                            try:
+                                if np.may_share_memory(val, a) and np.shares_memory(val, a, max_work=10000):
+                                    self.seen.add((name, p))
+                            except Exception:
+                                if np.may_share_memory(val, a):
+                                    self.seen.add((name, p))
+        return self.local
+
+
+def skeleton_alias_names(r):
+    """flow-insensitive closure of the bind edges of an extracted skeleton: for every LOCAL NAME (frame numbers dropped) the set of
+    parameter names a variable of that name may alias at some point"""
+    names = r["names"]
+    edges = []
+
+    def walk(ir):
+        for st in ir:
+            if st[0] == "bind" and st[2]:
+                edges.append((st[1], list(st[2])))
+            elif st[0] == "if":
+                walk(st[1]); walk(st[2])
+            elif st[0] == "loop":
+                walk(st[1])
+    walk(r["ir"])
+    pname = {}
+    for pid in r["params"]:
+        pname[pid] = names[pid].split(":", 1)[1]
+    E = {pid: {pid} for pid in r["params"]}
+    changed = True
+    while changed:
+        changed = False
+        for x, ys in edges:
+            acc = E.setdefault(x, set())
+            for y in ys:
+                new = E.get(y, set()) - acc
+                if new:
+                    acc |= new
+                    changed = True
+    out = {}
+    for v, ps in E.items():
+        base = names.get(v, "?").split(":", 1)[-1]
+        out.setdefault(base, set()).update(pname[p] for p in ps)
+    return out
+
+
+SKEL_NOTES = {}          # driver -> notes of the extractor (UNKNOWN ... / ASSUMED ...)
+TRACE_NOT_INLINED = {}   # driver -> observed facts about local names that do not occur in the skeleton at all
+
+
+def check_alias_trace(driver, seen):
+    """facts outside the skeleton.  Two kinds: the local NAME occurs in the skeleton but with a smaller alias set (the extractor saw
+    the code and mis-modelled it: returned, a violation); the name does not occur at all (the code that owns it was NOT INLINED: an
+    unknown receiver or callee that the extractor summarised; recorded in TRACE_NOT_INLINED and reported as a note)."""
+    allowed = SKEL_ALIAS.get(driver)
+    if allowed is None:
+        return []
+    bad = []
+    for (v, p) in sorted(seen):
+        if p in allowed.get(v, ()):
+            continue
+        if v in allowed and not SKEL_NOTES.get(driver):
+            bad.append("%s<-%s" % (v, p))
+        else:   # the name is unknown to the skeleton, or the extractor itself reported (notes) that it lost track of a receiver / callee
+            TRACE_NOT_INLINED.setdefault(driver, []).append("%s<-%s" % (v, p))
+    return bad
+
+
 def build_args(d, arr, c, rs, nelem):
     """the array arguments of one call.  Gen kinds `htmid:RA,DEC,DEPTH` and `htmrev:ID` are PRECOMPUTED arguments derived from the
     other arguments with esutil itself (the ids lookup_id returns for (RA, DEC); the reverse indices of histogram(ids - ids.min())),
@@ -565,6 +662,8 @@ class Dyn(Entry):
                          "family": "%s/%s" % (self.fam, d["func"])}
                     if mode != "plain":
                         c["mode"] = mode
+                    elif first_plain and vs_ == 0 and not d["slow"]:
+                        c["trace"] = True      # ALIAS TRACE: record which locals of esutil frames share memory with which argument
                     cs.append(c)
         return cs
 
@@ -629,9 +728,16 @@ class Dyn(Entry):
         sink = io.StringIO()
         old_handler = signal.signal(signal.SIGALRM, _on_alarm)
         signal.setitimer(signal.ITIMER_REAL, CASE_TIMEOUT)        # a python-level endless loop on odd inputs must not hang the check
+        tracer = AliasTracer({p: args[p] for p in checked}) if c.get("trace") else None
         try:
             with contextlib.redirect_stdout(sink), contextlib.redirect_stderr(sink), np.errstate(all="ignore"):
-                res = self.fn(d)(**args)      # noqa: F841  (kept alive until the snapshots are taken)
+                if tracer is not None:
+                    sys.settrace(tracer.glob)
+                try:
+                    res = self.fn(d)(**args)      # noqa: F841  (kept alive until the snapshots are taken)
+                finally:
+                    if tracer is not None:
+                        sys.settrace(None)
         except Exception as e:  # an exception is not a mutation; it is recorded
             err = "%s: %s" % (type(e).__name__, str(e)[:200])
         finally:
@@ -644,6 +750,14 @@ class Dyn(Entry):
         if out["ro_write_attempt"]:
             RO_HITS[c["driver"]] = RO_HITS.get(c["driver"], 0) + 1
             DYN_CHANGED.setdefault(c["driver"], dict(c))
+        if tracer is not None:
+            out["alias_trace"] = sorted("%s<-%s" % (v, p) for (v, p) in tracer.seen)
+            bad = check_alias_trace(c["driver"], tracer.seen)
+            if bad:
+                out["alias_trace_outside_skeleton"] = bad
+                TRACE_BAD.setdefault(c["driver"], bad)
+            TRACE_STATS[0] += 1
+            TRACE_STATS[1] += len(tracer.seen)
         out["ret_shares"] = sorted(p for p in arr if p not in d["exempt"] and err is None and shares(res, args[p]))
         if out["ret_shares"]:
             SHARE_HITS[c["driver"]] = SHARE_HITS.get(c["driver"], 0) + 1
@@ -679,7 +793,8 @@ class Dyn(Entry):
     def impl_seq(self, c, d, arr, checked, A, rs, nelem):
         """a call SEQUENCE in one process, arranged so that state carried across calls (a cache keyed by object identity, by shape /
         dtype / length, a reference to an argument stored by an earlier call) would collide:
-          1  f(A)                       2  f(B): other objects, same shapes / dtypes / lengths, other values
+          1  f(A)      1r  f(A) again after the caller zeroed the arrays RETURNED by call 1 (those not sharing memory with A)
+          2  f(B): other objects, same shapes / dtypes / lengths, other values
           (the caller overwrites A in place with B's values: same OBJECT, changed contents)
           3  f(A) again                 4  f(C): C = copies of A (other objects, EQUAL contents)
         Around EVERY call every array of every earlier set is snapshotted too: a later call that writes through a reference an
@@ -705,6 +820,17 @@ class Dyn(Entry):
 
         r1 = step("1", A, {"A": A})
         out["ret_shares"] = sorted(p for p in checked if out["error"] is None and shares(r1, A[p]))
+        # the caller overwrites the RETURNED arrays (those that do not share memory with an argument -- a shared one is a documented
+        # view and writing it would legitimately change the argument) and calls again: a result that is an internal buffer or a
+        # cached object of the library must not make the next call write into the arguments
+        if not d["slow"]:
+            for r in arrays_in(r1):
+                try:
+                    if r.flags.writeable and not r.dtype.hasobject and not any(shares(r, A[p]) for p in arr):
+                        r[...] = np.zeros((), dtype=r.dtype)
+                except Exception:
+                    pass
+            step("1r", A, {"A": A})
         step("2", B, {"A": A, "B": B})
         derived = any(d["gen"][p].startswith(("htmid:", "htmrev:")) for p in arr)
         for p in ([] if derived else checked):   # the caller's own, legitimate, in-place change of A between two calls
@@ -729,7 +855,10 @@ class Dyn(Entry):
         pairs = []
         for p in sorted(out["args"]):
             b0, m0, b1, m1 = out["args"][p]
-            pairs.append("(%s, %s)" % (snap63(b0, m0), snap63(b1, m1)))
+            if b0 == b1 and m0 == m1:
+                pairs.append("dup63 %s" % snap63(b0, m0))        # the same literal twice: printed (and parsed by coqc) once
+            else:
+                pairs.append("(%s, %s)" % (snap63(b0, m0), snap63(b1, m1)))
         ok = STATIC_OK.get(c["driver"], False)
         if c.get("mode") == "seq":
             ok = ok and STATIC_OK.get(c["driver"] + "#seq", ok)
@@ -831,6 +960,9 @@ def extract_one(ctx, d):
     arr, _ = params_of(d)
     ps = [p for p in arr if p not in d["exempt"]]
     try:
+        st = os.environ.get("C15_SELFTEST", "")
+        if st.startswith("crash-extract:") and d["name"].startswith(st.split(":", 1)[1]):
+            raise RuntimeError("SELFTEST: translator made to fail closed for this driver")
         r = sk.extract(ctx.impl, d["src"], "f", ps, prelude=sk.DRIVER_PRELUDE + drv.PRELUDE)
         r["checked"] = ps
     except Exception as e:  # fail closed: an extractor crash is an undischarged obligation
@@ -900,6 +1032,12 @@ def static_step(ctx, only=None):
         rid = [k for k, v in r["names"].items() if v == "0:<ret>"]
         inv_names = {v: k for k, v in r["names"].items()}
         PARAM_ID[n] = {p: inv_names["0:" + p] for p in r["checked"] if "0:" + p in inv_names}
+        if "#" not in n:
+            try:
+                SKEL_ALIAS[n] = skeleton_alias_names(r)
+                SKEL_NOTES[n] = list(r.get("notes", []))
+            except Exception as e:
+                ctx.notes.append("skeleton_alias_names failed for %s: %s" % (n, e))
         evn.append(n)
         terms.append("frame_ret %s [%s] %d" % (r["coq"], "; ".join(map(str, r["params"])), rid[0] if rid else 1))
     vals_by = {}
@@ -992,6 +1130,54 @@ def inventory_step(ctx):
                       found_input=False)
 
 
+def differential_all(ctx):
+    """the differential loop of harness/runner.py for ALL entries at once: the real code is run case by case (in this process, in
+    the main thread), then EVERY case of EVERY entry is evaluated by coqc in one parallel batch (the runner evaluates one entry
+    after the other, one or two coqc processes at a time).  Triage and reporting are the runner's: verdict >= 2 is a failing input
+    (one report per entry: the smallest case), verdict 1 without a failing input is a broken correspondence."""
+    import json
+    from ..runner import corpus_cases
+    per, terms = [], []
+    for ent in ENTRIES:
+        t0 = time.time()
+        cases = corpus_cases(ctx.pid, ent.name) + list(ent.cases(ctx, 0))
+        for c in cases:
+            c.setdefault("entry", ent.name)
+        outs = [ent.impl(c) for c in cases]
+        per.append((ent, cases, outs))
+        terms += [ent.term(c, o) for c, o in zip(cases, outs)]
+        ctx.count("wall_s:" + ent.name, round(time.time() - t0, 1))
+    t0 = time.time()
+    try:
+        vals = core.coq_eval(os.path.join(ctx.work, "d_all"), PRE, terms, shard=150, tag="d_all")
+    except core.CoqEvalError as e:
+        ctx.violation("case files do not evaluate in Coq", {"kind": "case-file", "error": str(e)[-3000:]}, found_input=False)
+        return
+    TIMES["dynamic:coq_eval"] = time.time() - t0
+    k = 0
+    for ent, cases, outs in per:
+        res = []
+        for c, o in zip(cases, outs):
+            res.append((c, o, int(vals[k].replace("%Z", "").strip("() "))))
+            k += 1
+        failing = [(c, o, v) for c, o, v in res if v >= 2]
+        disagree = [(c, o, v) for c, o, v in res if v == 1]
+        for c, o, v in res:
+            ctx.case([ent.name, c], ent.nontrivial(c, o), ent.family(c), sample={"entry": ent.name, "input": c, "impl_output": o})
+            ctx.count("verdict:%s:%d" % (ent.name, v))
+        if failing:
+            c, o, v = min(failing, key=lambda t: len(json.dumps(t[0], default=str)))
+            ctx.violation("%s: %s" % (ent.name, core.VERDICT_TXT.get(v, "verdict %d" % v)),
+                          {"kind": "failing-input", "entry": ent.name, "case": c, "impl_output": o, "verdict": v, "model_output": None,
+                           "class": ent.classify(c, o, v), "failing_cases_in_this_entry": len(failing)}, found_input=True)
+        elif disagree:
+            c, o, v = min(disagree, key=lambda t: len(json.dumps(t[0], default=str)))
+            ctx.violation("%s: correspondence model<->implementation broken on %d case(s); the property checker accepted every "
+                          "implementation output explored" % (ent.name, len(disagree)),
+                          {"kind": "correspondence", "entry": ent.name, "case": c, "impl_output": o, "verdict": v, "class": None,
+                           "no_longer_checks": "correspondence %s.%s (model = implementation)" % (ctx.pid, ent.name)}, found_input=False)
+
+
 def search_failed(ctx, names):
     for ent in ENTRIES:
         ds = [n for n in names if BY_NAME[n]["fam"] == ent.fam]
@@ -1068,7 +1254,7 @@ def run(ctx, replay=None):
             ctx.notes.append("static obligation %s FAILED (%s)" % (n, why.get(n)))
         return
     ex, failed, why = static_step(ctx)
-    differential(ctx, PRE, ENTRIES, replay)
+    differential_all(ctx)
     for k, v in sorted(EXEMPT_HITS.items()):
         ctx.count("exempt_argument_changed:" + k, v)
     for k, v in sorted(ERRORS.items()):
@@ -1077,6 +1263,21 @@ def run(ctx, replay=None):
     ctx.count("ret_alias:drivers_observed_sharing", len(SHARE_HITS))
     for k, v in sorted(RO_HITS.items()):
         ctx.count("read_only_write_attempt:" + k, v)
+    ctx.count("alias_trace:traced_calls", TRACE_STATS[0])
+    ctx.count("alias_trace:drivers_with_facts_in_code_the_extractor_did_not_inline", len(TRACE_NOT_INLINED))
+    if TRACE_NOT_INLINED:
+        ctx.notes.insert(0, "ALIAS TRACE: locals of code the extractor did not inline (or inlined with a reported UNKNOWN / ASSUMED step) share memory with an argument (covered dynamically only): "
+                         + "; ".join("%s: %s" % (k, ",".join(sorted(set(v)))) for k, v in sorted(TRACE_NOT_INLINED.items())[:12]))
+    ctx.count("alias_trace:alias_facts_observed", TRACE_STATS[1])
+    ctx.obligation("alias trace: every (local name, argument) sharing observed with sys.settrace in %d real calls is allowed by the "
+                   "may-alias closure of the extracted skeleton" % TRACE_STATS[0], not TRACE_BAD,
+                   "; ".join("%s: %s" % kv for kv in list(TRACE_BAD.items())[:5]))
+    if TRACE_BAD:
+        ctx.violation("the extracted skeletons do not over-approximate the aliasing of the real execution: %s"
+                      % "; ".join("%s: %s" % kv for kv in list(TRACE_BAD.items())[:3]),
+                      {"kind": "alias-trace", "drivers": TRACE_BAD,
+                       "no_longer_checks": "assumption of C15_refinement_sound (the real call's effect skeleton refines the extracted one)"},
+                      found_input=False)
     # cross-check static <-> dynamic.  The runner reports ONE failing input per entry and class; every driver in
     # which the dynamic run saw a non-exempt argument change (DYN_CHANGED, recorded by impl) has a failing input
     dyn_fail = set(DYN_CHANGED)
